@@ -76,11 +76,12 @@ class SInt(object):
 class SCell(object):
     """An arbitrary Python value of sort V.  `==` between cells in a *spec* is identity of the V term (the very
     same object/value); Python-level `==` executed by the interpreter is smt.py_eq."""
-    __slots__ = ('t', 'wrapped')
+    __slots__ = ('t', 'wrapped', 'untrusted')
 
-    def __init__(self, t, wrapped=False):
+    def __init__(self, t, wrapped=False, untrusted=False):
         self.t = t
         self.wrapped = wrapped        # True: the tuple-of-Comparables form of a list/tuple value (smt.wrapv)
+        self.untrusted = untrusted    # True: result of a user callback: iterating it may fail (lazily)
 
     def __bool__(self):
         raise Unsupported('symbolic cell used as a Python bool')
@@ -117,6 +118,14 @@ class PyList(object):
 
     def __init__(self, items, kind='list', origin='Fresh'):
         self.items, self.kind, self.origin = list(items), kind, origin
+
+    def go_symbolic(self):
+        """turn this very object (identity kept, aliases follow) into a Seq with the same contents"""
+        s = seq_of_items(self.items, self.kind, self.origin)
+        self.__class__ = Seq
+        del self.items
+        self.arr, self.len = s.arr, s.len
+        return self
 
     def __repr__(self): return 'PyList%r' % (self.items,)
 
@@ -203,6 +212,8 @@ def as_v(x):
         return v_seq(seq_of_items(x.items, x.kind))
     if z3.is_expr(x) and x.sort() == V:
         return x
+    if hasattr(x, 'as_v_term'):
+        return x.as_v_term()
     raise Unsupported('cannot lift %r into V' % (x,))
 
 
